@@ -111,6 +111,55 @@ def oracle(case, line):
                 pass
         if bad:
             return bad
+    elif kind == "DH":
+        own = bytes.fromhex(toks[1])
+        outs = [] if line == "-" else line.split(" ; ")
+        dgs, i = [], 2
+        while i < len(toks):
+            dgs.append(bytes.fromhex(toks[i + 2]) if toks[i + 2] != "-" else b"")
+            i += 3
+        if len(outs) != len(dgs):
+            return [("dht-events", "number of reported outcomes differs from the number of datagrams")]
+        for d, o in zip(dgs, outs):
+            if "TO-OTHER-ADDRESS" in o or "+" in o or o.split(" ")[0] not in ("none", "e", "Q"):
+                bad.append(("dht-reply-misdirected", "a DHT datagram caused more than one reply, a reply to another address, or an undecodable reply: " + o[:80]))
+                continue
+            w = G.ref_dht(own, d)
+            if w == "none" and o != "none":
+                bad.append(("dht-malformed-answered", "a datagram that is not a bencoded dictionary was answered / processed: " + o[:80]))
+            elif w == "Q" and o != "Q":
+                bad.append(("dht-query-refused", "a well-formed query envelope was not dispatched: " + o[:80]))
+            elif w == "e203" and not o.startswith("e "):
+                bad.append(("dht-bad-envelope-accepted", "a message without usable t / y / id was not answered with a protocol error: " + o[:80]))
+    elif kind == "DV":
+        d = bytes.fromhex(toks[1]) if toks[1] != "-" else b""
+        w = G.ref_values(d)
+        if line.startswith("OK "):
+            f = parse_kv(line[3:])
+            if w is not None and f["values"] != w:
+                bad.append(("dht-values-not-exact", "peers taken from r.values are not exactly the leading 6-byte entries"))
+        elif w is not None and line == "REJECT":
+            bad.append(("dht-valid-reply-rejected", "a canonical DHT reply was rejected by the static-map reader"))
+    elif kind == "PX":
+        if not line.startswith("OK "):
+            return [("crash", "PEX pipeline: " + line[:200])]
+        f = parse_kv(line[3:])
+        avail = G.parse_addrs(f["avail"])
+        mx = int(toks[1])
+        bad += check_retained(avail, "available list (ut_pex)")
+        if len(avail) > mx:
+            bad.append(("cap-exceeded", "available list holds %d addresses, configured maximum is %d" % (len(avail), mx)))
+        offered = []
+        rets = f["ret"].split(",")
+        for ptxt, rt in zip(toks[2:], rets):
+            added = G.ref_pex_added(bytes.fromhex(ptxt) if ptxt != "-" else b"")
+            if added is None:
+                if rt != "REJECT":
+                    bad.append(("pex-malformed-accepted", "a ut_pex payload that is not a bencoded dictionary was accepted"))
+            else:
+                offered += G.ref_compact(added, 6)
+        if not set(avail) <= set(offered):
+            bad.append(("invented-address", "available list holds an address that is in no ut_pex payload"))
     elif kind == "H":
         ev = int(toks[1])
         body = bytes.fromhex(toks[2]) if toks[2] != "-" else b""
@@ -169,6 +218,12 @@ def nontrivial(case, line):
         return any(t in line for t in ("connected:", "success:", "newpeers:", "fail:", "reset"))
     if k == "H":
         return not line.startswith("fail:7061727365")
+    if k == "DH":
+        return "Q" in line or "e " in line
+    if k == "DV":
+        return line.startswith("OK ") and "values=~" not in line
+    if k in ("PX", "PI"):
+        return "avail=-" not in line
     return False
 
 
@@ -196,7 +251,15 @@ def run(rep, tier, seed, replay):
     else:
         cases, stats = G.gen(seed, tier)
     mo = ltv.run_sharded(model, cases)
-    io = ltv.run_sharded(impl, cases, timeout=900)
+    # DH / DV / PI cases need the fully initialised library (DhtRouter + DhtServer, PeerInfo): second binary
+    impl_full = ltv.build_harness("c14dht", ["c14_dht.cc"])
+    full = ("DH", "DV", "PI")
+    io = [None] * len(cases)
+    for binary, idx in ((impl, [i for i, c in enumerate(cases) if c.split(" ", 1)[0] not in full]),
+                        (impl_full, [i for i, c in enumerate(cases) if c.split(" ", 1)[0] in full])):
+        res = ltv.run_sharded(binary, [cases[i] for i in idx], timeout=900)
+        for j, i in enumerate(idx):
+            io[i] = res[j] if j < len(res) else "MISSING"
     nt = set()
     mism = 0
     samples = []
